@@ -5,7 +5,7 @@
 cd "$(dirname "$0")/.." || exit 2
 OUT=audit/review_mutants/RESULTS.tsv
 printf 'pair\tmutant\tverdict\tsignatures\n' > $OUT
-for d in audit/review_mutants/*/; do
+for d in ${1:-audit/review_mutants/*/}; do
   pair=$(basename $d)
   props=$(echo $pair | tr '_' ' ')
   for m in $d*.diff; do
@@ -24,6 +24,10 @@ for d in audit/review_mutants/*/; do
         s=$(echo "$out" | grep '^  signature=' | awk '{print $1}' | sed 's/signature=//' | head -3 | tr '\n' ' ')
         if [ -n "$s" ]; then verdict=DETECTED; sigs="$sigs$s"; fi
       done
+      if [ $verdict = MISSED ]; then   # "leaves its arguments alone" is C08's clause whatever the pair was
+        s=$(PV_CASE_LIMIT=20 PV_REPO_SRC=$SCR/src ./check C08 quick 2>&1 | grep '^  signature=' | awk '{print $1}' | sed 's/signature=//' | head -3 | tr '\n' ' ')
+        if [ -n "$s" ]; then verdict=DETECTED-BY-C08; sigs="$s"; fi
+      fi
     fi
     printf '%s\t%s\t%s\t%s\n' "$pair" "$(basename $m .diff)" "$verdict" "$sigs" | tee -a $OUT
     rm -rf $SCR
